@@ -56,6 +56,9 @@ def check_ref(rep, crate, prop):
         got_l = got.split('\n')
         if got_l == e['summary']:
             rep.ok('REF', key, loc(b.raw), 'summary: ' + ' | '.join(got_l)[:400], fn=e['path'])
+        elif semantically_equal(crate, e):
+            rep.ok('REF', key, loc(b.raw), 'summary differs textually from the reference but is PROVED equal to it for all well-formed arguments '
+                   '(linear entailment over the guarded cases of both): ' + ' | '.join(got_l)[:300], fn=e['path'])
         else:
             d = [l for l in difflib.unified_diff(e['summary'], got_l, 'reference', 'current tree', lineterm='', n=0)
                  if not l.startswith(('---', '+++', '@@'))]
@@ -65,6 +68,32 @@ def check_ref(rep, crate, prop):
                         'reviewed one; renames, re-ordering, let-introduction and helper extraction do not change a summary')
     n += check_inventory(rep, crate, prop)
     return n
+
+
+def semantically_equal(crate, e):
+    """closed-form, effect-free, piecewise-linear functions: equality with the reference as *functions* (same value for
+    every argument satisfying the constructor's asserts), decided by sa/linarith.py"""
+    if 'cases' not in e:
+        return False
+    from . import rules_sem, linarith
+    import ast
+    try:
+        ref = ast.literal_eval(e['cases'])
+        cur = rules_sem.pure_lin_cases(crate, e['path'])
+        if cur is None:
+            return False
+        wf = rules_sem.self_type_wf(crate, e['path'])
+        # divisors are at least 1 on well-formed input (a zero divisor panics in every profile)
+        for g, v in cur + ref:
+            for t in g + [v]:
+                for x in T.subterms(t):
+                    if isinstance(x, tuple) and x and x[0] in ('div', 'rem'):
+                        f = T.sub(T.const(1), T.as_lin(x[2]))
+                        if f not in wf:
+                            wf.append(f)
+        return bool(linarith.equal_under(cur, ref, wf)[0])
+    except Exception:
+        return False
 
 
 MODEL_TRAITS = {'arrival::ArrivalBound': None, 'wcet::JobCostModel': 'C14', 'demand::RequestBound': 'C16',
